@@ -7,6 +7,7 @@
   C05.c cursor       the additional section is walked with OPT included, from into_iter_additional_including_opt through next_including_opt
   C05.d translation  in every section loop the reference-offset test precedes the first byte appended for that record
   C05.e walker       copy_uncompressed_name reports the wire position behind the FIRST pointer, exactly like the validator's walker
+  C05.f bounded copies   no copy from the input packet into the output below the decompressor takes an open-ended range packet[a..]
 
 Not decided: byte identity of expanded names, idempotence, acceptance of the output (run-time relations).
 """
@@ -83,5 +84,6 @@ def run(ctx):
         reemit.fixed_parts_rule(ctx, facts, cfg, 'C05.b', UR)
         reemit.cursor_rule(ctx, facts, cfg, 'C05.c', [UW, 'compress::Compress::compress', 'renamer::Renamer::rename_with_raw_names'])
         translation_rule(ctx, facts, cfg)
+        reemit.open_ended_rule(ctx, facts, cfg, 'C05.f', UW, ('compress::',), 6, 'the decompressor')
         reemit.walker_siblings_rule(ctx, facts, cfg, 'C05.e')
     ctx.trust('analysis/interp.py contracts (Vec growth, byteorder writes), tables/policy.json')
